@@ -46,25 +46,25 @@ func regress(c *hc.Ctx) {
 	run("merge:LineTo-reversed-direction", "M0 0 L-2 0 L0 0", func() string { return want(build(M(0, 0), L(-2, 0), L(0, 0)), "M0 0L-2 0L0 0") })
 	run("merge:LineTo-reversed-direction", "M0 0 L0 -2 L0 3", func() string { return want(build(M(0, 0), L(0, -2), L(0, 3)), "M0 0L0 -2L0 3") })
 	run("merge:LineTo-reversed-direction", "M0 0 L-2 -3 L2 3", func() string { return want(build(M(0, 0), L(-2, -3), L(2, 3)), "M0 0L-2 -3L2 3") })
-	// 60bb9c2: Close after a bare MoveTo re-opened the previous open subpath
+	// 58c03cc: Close after a bare MoveTo re-opened the previous open subpath
 	run("trace:built-not-requested", "L3 4 M-13.783 4 Close L17.072 7", func() string {
 		return want(build(L(3, 4), M(-13.783, 4), Z, L(17.072, 7)), "M0 0L3 4M-13.783 4L17.072 7")
 	})
-	// 83194f5: Append left two consecutive MoveTos
+	// 7353487: Append left two consecutive MoveTos
 	run("wf:consecutive-moveto", "(M0 0L1 1M5 5).Append(M2 2L3 3)", func() string {
 		return want(build(M(0, 0), L(1, 1), M(5, 5)).Append(P("M2 2L3 3")), "M0 0L1 1M2 2L3 3")
 	})
-	// d70f6ff: replace indexed past the array
+	// 6dcb309: replace indexed past the array
 	for _, s := range []string{"M0 0L1 1M4 -4C1 -3 7 -5 4 -4z", "M0 0L1 0L1 1zM4 -4C1 -3 7 -5 4 -4z", "M0 0L1 0L1 1zM4 -4C4 -4 4.0000000002 -4 4 -4z"} {
 		s := s
 		run("panic:Flatten:index-out-of-range", s+" .Flatten(0.01)", func() string { P(s).Flatten(0.01); return "" })
 	}
-	// d239a7e: optimizeInnerBend read past the array
+	// 1b74b9e: optimizeInnerBend read past the array
 	run("panic:Stroke:index-out-of-range", "M0 0L-2 1C-4 -1 -2 1 -2 1L-6 -3 .Stroke", func() string {
 		P("M0 0L-2 1C-4 -1 -2 1 -2 1L-6 -3").Stroke(0.3, canvas.SquareCap, canvas.MiterJoin, 0.01)
 		return ""
 	})
-	// b0e3198: boolean operations closed the caller's q in place
+	// 255bd73: boolean operations closed the caller's q in place
 	for name, f := range map[string]func(p, q *canvas.Path) *canvas.Path{
 		"And": (*canvas.Path).And, "Or": (*canvas.Path).Or, "Xor": (*canvas.Path).Xor, "Not": (*canvas.Path).Not, "DivideBy": (*canvas.Path).DivideBy} {
 		name, f := name, f
@@ -74,7 +74,7 @@ func regress(c *hc.Ctx) {
 			return want(q, "M0 0L2 0L2 2L0 0")
 		})
 	}
-	// 2c6f66f / a6207f9: SplitAt sorted and Dash rewrote the caller's slices
+	// 6f95aa6 / a6207f9: SplitAt sorted and Dash rewrote the caller's slices
 	run("impure:SplitAt-ts-arg", "SplitAt(3,1,2)", func() string {
 		ts := []float64{3, 1, 2}
 		P("M0 0L20 0").SplitAt(ts...)
@@ -91,14 +91,14 @@ func regress(c *hc.Ctx) {
 		}
 		return ""
 	})
-	// 4102be9: Length of a quadratic with a collinear outside control point was +Inf
+	// e51fcfc: Length of a quadratic with a collinear outside control point was +Inf
 	run("nonfinite:Length", "M-1 2Q-2.2575 2 1.515 2 .Length()", func() string {
 		if l := P("M-1 2Q-2.2575 2 1.515 2").Length(); math.IsInf(l, 0) || math.IsNaN(l) {
 			return fmt.Sprint("Length() = ", l)
 		}
 		return ""
 	})
-	// feae37f: ellipseSplit panicked on eccentric arcs
+	// fc041fc: ellipseSplit panicked on eccentric arcs
 	run("panic:SplitAt:theta-not-in-elliptic-arc-range-for-spli", "eccentric arc .SplitAt(2,1.5,2)", func() string {
 		P("M1 0A10 0.1 44.99999999999995 1 0 3 2A2 0.5 30.000000000000014 0 1 2.950268334707519 1.7346182357206776M8 -2.501L1 0M3 -2L0 0M3 0L0 0").SplitAt(2, 1.5, 2)
 		return ""
